@@ -127,7 +127,8 @@ PROPS["C07"] = dict(
                "ECC/ECDHE x full/resumed x both stacks are played against the real server and compared with the model on independently computed oracle answers.",
     level_note="Trusted: Coq kernel + vm_compute; X.509 verification and SM2 verification are oracles computed by the harness; the puppet peer.",
     code_names={1: "completed-although-policy-not-satisfied", 2: "certificate-accepted-without-proof-of-possession", 3: "peer-certificates-reported-without-proof",
-                4: "verified-chains-reported-without-verification", 5: "completed-with-wrong-Finished", 6: "resumed-under-a-policy-the-session-does-not-satisfy"},
+                4: "verified-chains-reported-without-verification", 5: "completed-with-wrong-Finished", 6: "resumed-under-a-policy-the-session-does-not-satisfy", 7: "ecdhe-encryption-certificate-not-verified",
+                8: "verified-chains-reported-although-no-certificate-was-presented"},
     assumptions=["SM2 signatures cannot be produced without the private key"],
     trusted=["harness/internal/puppet", "smx509.Verify / sm2.VerifyASN1WithSM2 as oracles"],
 )
